@@ -236,6 +236,12 @@ def check_plumbing(R):
 
 
 def run_module_case(case):
+    set_agg = _imports()[10]
+    with set_agg(False):
+        return _run_module_case(case)
+
+
+def _run_module_case(case):
     D, TensorDict, PTM, PTS, TDM, TDS, IT, set_it, Comp, PR, set_agg = _imports()
     fails = []
     sig = {"check": "prob-module", "pattern": "none"}
@@ -284,7 +290,8 @@ def run_module_case(case):
     # which method, which sample shape
     calls = [x for x in LOG if x[1] in CODE]
     want_shape = (case["num_samples"],) if (method in ("rsample", "sample") and case["num_samples"] is not None) else ()
-    if [(c[1], c[2]) for c in calls] != [(method, want_shape)]:
+    # (hasattr + attribute access may evaluate a property twice: only WHICH method with WHICH shape is demanded)
+    if set((c[1], c[2]) for c in calls) != {(method, want_shape)}:
         fails.append(("prob:method-consulted", {"calls": [(c[1], list(c[2])) for c in calls], "want": [method, list(want_shape)],
                                                 "effective": eff}, sig))
         return fails
@@ -336,6 +343,13 @@ def check_sequential(R):
         sig = {"check": "prob-sequential", "pattern": "none"}
         cls = rec_class("d", has_rsample, True)
         with set_agg(False):
+            _one_sequential(R, case, sig, cls, it, rlp, via_ctx, has_rsample)
+
+
+def _one_sequential(R, case, sig, cls, it, rlp, via_ctx, has_rsample):
+    D, TensorDict, PTM, PTS, TDM, TDS, IT, set_it, Comp, PR, set_agg = _imports()
+    if True:
+        if True:
             net = TDM(lambda x: (x + 1, x * 100), in_keys=["obs"], out_keys=["loc", "scale"])
             pm = PTM(in_keys=["loc", "scale"], out_keys=["act"], distribution_class=cls, return_log_prob=rlp,
                      default_interaction_type="mode" if via_ctx else it)
@@ -355,10 +369,10 @@ def check_sequential(R):
                     res = seq(td)
         except Exception as e:  # noqa: BLE001
             R.oracle_fail("prob-seq:forward-raises", case, {"exception": type(e).__name__}, sig)
-            continue
+            return
         want = ((obs + 1) + obs * 100) * 10 + CODE[method]
         calls = [(x[1], x[2]) for x in LOG if x[1] in CODE]
-        ok = calls == [(method, ())] and res is td and bool((td.get("act") == want).all()) and td.get("other") is other \
+        ok = set(calls) == {(method, ())} and res is td and bool((td.get("act") == want).all()) and td.get("other") is other \
             and list(seq.in_keys) == ["obs"] and bool((td.get("loc") == obs + 1).all())
         if rlp:
             ok = ok and td.get("act_log_prob", None) is not None and bool((td.get("act_log_prob") == want * 2 + 1).all()) \
@@ -409,11 +423,13 @@ def check_composite(R):
                 continue      # CompositeDistribution has no median: NotImplementedError is the table's answer
             R.oracle_fail("prob-composite:raises", case, {"exception": type(e).__name__}, sig)
             continue
-        mx = expected_method(it, True, True)
+        # RANDOM on a composite: CompositeDistribution.has_rsample is False, so every component is drawn with sample();
+        # a draw is a draw -- the property does not ask for the reparameterised one
+        mx = expected_method(it, it != "random", True)
         my = expected_method(it, False, True)
         wx = (one + one * 100) * 10 + CODE[mx]
         wy = (one * 3 + one * 1000) * 10 + CODE[my]
-        calls = sorted((x[0], x[1]) for x in LOG if x[1] in CODE)
+        calls = sorted(set((x[0], x[1]) for x in LOG if x[1] in CODE))
         ok = calls == sorted([("x", mx), ("y", my)]) and bool((res.get("x") == wx).all()) and bool((res.get("y") == wy).all()) \
             and res.get("other") is other
         if rlp:
